@@ -5,10 +5,10 @@
 package ids
 
 import (
-	"github.com/lindb/lindb/models"
-	"github.com/lindb/lindb/constants"
 	"errors"
 	"fmt"
+	"github.com/lindb/lindb/constants"
+	"github.com/lindb/lindb/models"
 	"math/rand"
 	"path/filepath"
 	"sort"
@@ -65,8 +65,25 @@ func (H) Gen(prop string, rng *rand.Rand, tier string) *core.Plan {
 	p.Cfg["switch_pm"] = []int{50, 300, 600}[rng.Intn(3)]
 	p.Cfg["crash_pm"] = []int{2, 8, 30}[rng.Intn(3)]
 	few := rng.Intn(2) == 0 // small universe: more same-name races
+	// a third of the plans compact the kv families of the metadata and index stores (the stores' own job does it when a
+	// family has enough level-0 files): ids and names must come out of the mergers as they went in
+	compactions := rng.Intn(3) == 0
 	phases := 1 + rng.Intn(3)
 	for ph := 0; ph < phases; ph++ {
+		if compactions && rng.Intn(2) == 0 {
+			// several flushes of the same dictionaries, then their compaction, then the names again (this phase and,
+			// after the reopen / crash that may end it, the next one)
+			ns, nm := rng.Intn(len(nss)), rng.Intn(len(names))
+			if few {
+				ns, nm = 0, rng.Intn(2)
+			}
+			for k := 2 + rng.Intn(2); k > 0; k-- {
+				p.Ops = append(p.Ops, core.Op{K: "field", T: 0, A: int64(ns), B: int64(nm), C: int64(rng.Intn(len(fields)))},
+					core.Op{K: "series", T: 1 + rng.Intn(shards), A: int64(ns), B: int64(nm), C: int64(rng.Intn(8))},
+					core.Op{K: "flushmeta", T: 0}, core.Op{K: "flushindex", T: 1 + rng.Intn(shards)})
+			}
+			p.Ops = append(p.Ops, core.Op{K: "compact"})
+		}
 		n := 2 + rng.Intn(10)
 		for i := 0; i < n; i++ {
 			ns, nm := rng.Intn(len(nss)), rng.Intn(len(names))
@@ -86,13 +103,15 @@ func (H) Gen(prop string, rng *rand.Rand, tier string) *core.Plan {
 				p.Ops = append(p.Ops, core.Op{K: "suspend", T: rng.Intn(1 + shards), A: int64(ns), B: int64(nm), C: int64(1 + rng.Intn(90)), S: fmt.Sprint(rng.Intn(8))})
 			case r < 94:
 				p.Ops = append(p.Ops, core.Op{K: "flushmeta", T: 0})
+			case r < 96 && compactions:
+				p.Ops = append(p.Ops, core.Op{K: "compact"})
 			default:
 				p.Ops = append(p.Ops, core.Op{K: "flushindex", T: 1 + rng.Intn(shards)})
 			}
 		}
 		p.Ops = append(p.Ops, core.Op{K: "end", S: []string{"sync", "flush", "reopen", "reopen", "crash", "crash"}[rng.Intn(6)]})
 	}
-	p.Cfg["maporder"] = rng.Intn(2) // tape-chosen iteration order of Go maps in the code under test
+	p.Cfg["maporder"] = rng.Intn(2)                       // tape-chosen iteration order of Go maps in the code under test
 	p.Cfg["serieslimit"] = []int{0, 0, 2, 3}[rng.Intn(4)] // series limit per metric of the database (0 = the default)
 	if rng.Intn(4) == 0 {
 		p.Cfg["ioerr_pm"] = []int{30, 100, 300}[rng.Intn(3)]
@@ -755,6 +774,33 @@ func (H) Run(c *core.RunCtx) {
 								}
 							}
 							flushing--
+						})
+					case "compact":
+						sim.Fault("kv-compaction")
+						flushing++
+						sim.SpawnIn(n.inc, "compact", func() {
+							defer func() { flushing-- }()
+							stores := kv.GetStoreManager().GetStores()
+							sort.Slice(stores, func(i, j int) bool { return stores[i].Name() < stores[j].Name() })
+							var fams []kv.Family
+							for _, st := range stores {
+								fns := st.ListFamilyNames()
+								sort.Strings(fns)
+								for _, fn := range fns {
+									if f := st.GetFamily(fn); f != nil {
+										f.Compact()
+										fams = append(fams, f)
+									}
+								}
+							}
+							sim.Await(func() bool {
+								for _, f := range fams {
+									if kv.VerifFamilyBusy(f) {
+										return false
+									}
+								}
+								return true
+							})
 						})
 					case "flushindex":
 						shard := o.T
